@@ -36,7 +36,7 @@ import (
 const (
 	defaultASLimitMB  = 4096 // RLIMIT_AS
 	defaultGCLimitMB  = 2048 // debug.SetMemoryLimit (soft; makes the GC return memory early)
-	defaultMaxStackMB = 256  // debug.SetMaxStack: runaway recursion dies after 256 MiB, not 1 GB
+	defaultMaxStackMB = 64   // debug.SetMaxStack: runaway recursion dies after 64 MiB, not 1 GB (honest calls need < 10 MiB)
 	defaultHangCPUSec = 120  // CPU seconds one single guarded call may burn before it is reported as a hang
 )
 
@@ -56,6 +56,10 @@ func TestMain(m *testing.M) {
 			fmt.Fprintf(os.Stderr, "c10: cannot set RLIMIT_AS: %v (continuing without)\n", err)
 		}
 	}
+	// One P: runtime.ReadMemStats stops the world, which costs ~1 ms of wall clock per call on a
+	// 16-P process and ~10 us on a 1-P process (the driver shards by processes anyway); it also
+	// keeps the allocation measurement free of concurrent allocators.
+	runtime.GOMAXPROCS(max(1, stats.EnvInt("VERIF_C10_PROCS", 1)))
 	debug.SetMemoryLimit(int64(stats.EnvInt("VERIF_C10_GCLIMIT_MB", defaultGCLimitMB)) << 20)
 	debug.SetMaxStack(stats.EnvInt("VERIF_C10_MAXSTACK_MB", defaultMaxStackMB) << 20)
 	if isFuzzWorker() {
